@@ -1337,10 +1337,8 @@ func (m *Model) readCrit(c *Conn, r Req, what string) error {
 		size = m.ro.obj.Size()
 	}
 	// (no sum: offset + count may exceed 2^63)
-	sat := m.ro.kind == roObj && r.Off < 1<<63 && (r.N == 0 || int64(r.Off) <= size && int64(r.N) <= size-int64(r.Off))
-	if sat && r.N == 0 && unseekable(m.ro.obj, r.Off) {
-		sat = false
-	}
+	// (an empty read is satisfied at any offset - also one the file cannot be positioned at: nothing has to be read)
+	sat := m.ro.kind == roObj && (r.N == 0 || r.Off < 1<<63 && int64(r.Off) <= size && int64(r.N) <= size-int64(r.Off))
 	if !sat && r.N == 0 {
 		// an empty read is vacuously satisfied; without a readable object the server
 		// may also end the connection: both are fine, nothing may arrive either way
